@@ -133,6 +133,7 @@ fn worker(args: &[String]) -> i32 {
             break;
         }
         let sub = sub_seed(master, &prop, run);
+        let _ = std::fs::write(out.with_extension("cur"), run.to_string());
         let mut r = Rng::new(sub);
         let case = props::gen_case(&prop, &mut r, tier);
         let t_run = Instant::now();
@@ -206,6 +207,7 @@ fn worker(args: &[String]) -> i32 {
     write_set(&out.with_extension("nontrivial"), &st.nontrivial);
     write_set(&out.with_extension("states"), &st.states);
     std::fs::write(&out, serde_json::to_string(&rep).unwrap()).unwrap();
+    let _ = std::fs::remove_file(out.with_extension("cur"));
     0
 }
 
@@ -289,7 +291,7 @@ fn spawn_workers(
     cap: f64,
     digests: bool,
     tag: &str,
-) -> Result<Vec<PathBuf>, String> {
+) -> Result<Vec<(PathBuf, Option<String>)>, String> {
     let exe = std::env::current_exe().map_err(|e| e.to_string())?;
     let shard_dir = verif_dir().join("target").join("shards");
     std::fs::create_dir_all(&shard_dir).map_err(|e| e.to_string())?;
@@ -313,13 +315,16 @@ fn spawn_workers(
         children.push((w, child));
         outs.push(out);
     }
-    for (w, mut ch) in children {
+    let mut res = Vec::new();
+    for ((w, mut ch), out) in children.into_iter().zip(outs.into_iter()) {
         let status = ch.wait().map_err(|e| e.to_string())?;
         if !status.success() {
-            return Err(format!("worker {} of {} exited with {:?} (not attributable to a run)", w, prop, status));
+            res.push((out, Some(format!("worker {} of {} died with {:?}", w, prop, status))));
+        } else {
+            res.push((out, None));
         }
     }
-    Ok(outs)
+    Ok(res)
 }
 
 fn check(args: &[String]) -> i32 {
@@ -366,6 +371,46 @@ fn check(args: &[String]) -> i32 {
     let mut violations: Vec<ViolationRec> = Vec::new();
     let mut cap_hit = false;
     let (mut distinct, mut nontrivial, mut states) = (Vec::new(), Vec::new(), Vec::new());
+    let mut crash_violations: Vec<ViolationRec> = Vec::new();
+    let mut live_outs = Vec::new();
+    for (o, crash) in &outs {
+        match crash {
+            None => live_outs.push(o.clone()),
+            Some(desc) => {
+                // attribute the death to the run that was executing
+                let cur = std::fs::read_to_string(o.with_extension("cur")).ok().and_then(|s| s.trim().parse::<u64>().ok());
+                let _ = std::fs::remove_file(o.with_extension("cur"));
+                match cur {
+                    None => {
+                        eprintln!("HARNESS-ERROR: {} (not attributable to a run)", desc);
+                        return 2;
+                    }
+                    Some(run) => {
+                        let sub = sub_seed(master, &prop, run);
+                        let mut r = Rng::new(sub);
+                        let case = props::gen_case(&prop, &mut r, tier);
+                        let dir = verif_dir().join("replays");
+                        let _ = std::fs::create_dir_all(&dir);
+                        let path = dir.join(format!("{}-{}-{}.json", prop, master, run));
+                        let msg = format!("the process executing run {} was killed ({}): abort, stack overflow or memory fault inside the code under test", run, desc);
+                        let trace = Trace {
+                            property: prop.clone(),
+                            master_seed: master,
+                            run,
+                            sub_seed: sub,
+                            case,
+                            violation: Some(msg.clone()),
+                            oracle: Some("process-abort".into()),
+                            minimised: false,
+                        };
+                        let _ = std::fs::write(&path, serde_json::to_string_pretty(&trace).unwrap());
+                        crash_violations.push(ViolationRec { run, sub_seed: sub, oracle: "process-abort".into(), msg, replay: path.to_string_lossy().to_string(), minimise_execs: 0 });
+                    }
+                }
+            }
+        }
+    }
+    let outs = live_outs;
     for o in &outs {
         let s = match std::fs::read_to_string(o) {
             Ok(s) => s,
@@ -405,6 +450,7 @@ fn check(args: &[String]) -> i32 {
         v.sort_unstable();
         v.dedup();
     }
+    violations.extend(crash_violations);
     violations.sort_by_key(|v| v.run);
     let wall = start.elapsed().as_secs_f64();
     // classify violations
@@ -438,6 +484,7 @@ fn check(args: &[String]) -> i32 {
         let exe = std::env::current_exe().unwrap();
         let out = Command::new(&exe).arg("replay").arg(&v.replay).output();
         let confirmed = match out {
+            Ok(o) if v.oracle == "process-abort" => !matches!(o.status.code(), Some(0) | Some(1) | Some(2)),
             Ok(o) => o.status.code() == Some(1) && String::from_utf8_lossy(&o.stdout).contains(&format!("oracle={} ", v.oracle)),
             Err(_) => false,
         };
@@ -572,7 +619,11 @@ fn selftest(args: &[String]) -> i32 {
                 }
             };
             let mut m = BTreeMap::new();
-            for o in outs {
+            for (o, crash) in outs {
+                if let Some(c) = crash {
+                    eprintln!("HARNESS-ERROR: {}", c);
+                    return 2;
+                }
                 let rep: ShardReport = serde_json::from_str(&std::fs::read_to_string(&o).unwrap()).unwrap();
                 // digests depend on cumulative counters of the worker, so recompute per-run part only
                 for (run, d) in rep.digests {
